@@ -476,14 +476,16 @@ func (r *Reader) Get(key []byte) ([]byte, error) {
 	for _, locator := range blocks {
 		// Check bloom filter first if available
 		if r.hasBloomFilter {
-			// Find the bloom filter for this block
-			var shouldSkip = true
+			// Find the bloom filter for this block. A block without a
+			// (loadable) filter must be searched: only a filter that says
+			// "definitely not here" allows skipping it.
+			var shouldSkip = false
 			for _, bf := range r.bloomFilters {
 				if bf.blockOffset == locator.Offset {
 					// Found a bloom filter for this block
 					// If the key might be in this block, we'll check it
-					if bf.filter.Contains(key) {
-						shouldSkip = false
+					if !bf.filter.Contains(key) {
+						shouldSkip = true
 					}
 					break
 				}
